@@ -263,7 +263,7 @@ func splits(n int, f func([]int)) {
 
 func Run(r *report.Run) {
 	maxFull := 3
-	r.Rule = "every directed graph with self loops on n tables (n<=3: all 2^(n*n) graphs x all 3^n splits of the tables into kept/created/dropped x 3 modes for edges between kept tables {unchanged, added, dropped} x {MySQL, PostgreSQL} x plan mode {unset, deferred}; thorough adds n=4: all 65536 graphs x all 81 splits with kept-kept edges added, x 2 dialects, plan mode unset); changes from the real differ, plans from the real planners, every change set planned twice (identical plans required); each plan's statements are replayed from their text by a reference catalogue of existing tables and live foreign keys; non-trivial = case with a non-empty plan; distinct by construction"
+	r.Rule = "every directed graph with self loops on n tables (n<=3: all 2^(n*n) graphs x all 3^n splits of the tables into kept/created/dropped x 3 modes for edges between kept tables {unchanged, added, dropped} x {MySQL, PostgreSQL} x plan mode {unset, deferred, in-place, dump}; thorough adds n=4: all 65536 graphs x all 81 splits with kept-kept edges added, x 2 dialects, plan mode unset); changes from the real differ, plans from the real planners, every change set planned twice (identical plans required); each plan's statements are replayed from their text by a reference catalogue of existing tables and live foreign keys; non-trivial = case with a non-empty plan; distinct by construction"
 	r.Assumptions = []string{
 		"statement text is parsed by regular expressions over names the generator chose (t<i>, fk_<i>_<j>)",
 		"random larger graphs are not claimed (sampling is a different family)",
@@ -311,7 +311,8 @@ func Run(r *report.Run) {
 		j := jobs[i]
 		splits(j.n, func(sp []int) {
 			kks := []int{0, 1, 2}
-			modes := []int{int(migrate.PlanModeUnset), int(migrate.PlanModeDeferred)}
+			// (PlanModeUnsortedDump is unsorted by definition and not a mode the property speaks about.)
+			modes := []int{int(migrate.PlanModeUnset), int(migrate.PlanModeDeferred), int(migrate.PlanModeInPlace), int(migrate.PlanModeDump)}
 			if j.n == 4 {
 				kks, modes = []int{1}, []int{int(migrate.PlanModeUnset)}
 			}
